@@ -55,6 +55,11 @@ theorem makeUnique_fresh (n n' : Node) (pfx : String) (hname : n'.name = n.name)
 
 example : (({ name := "cli" } : Node).makeUnique "$future_").2 = ⟨"cli", "$future_1"⟩ := by decide
 
+example : let n : Node := { name := "cli" }
+    let n' := (n.makeUnique "$future_").1
+    n'.name = n.name ∧ counterGet (n.makeUnique "$future_").1.counters "$future_" ≤ counterGet n'.counters "$future_" ∧
+    (n'.makeUnique "$future_").2 = ⟨"cli", "$future_2"⟩ := by decide
+
 /-! ## the generated stubs -/
 
 /-- the stub installed under attribute `n` sends method name `n` (closure per name) -/
@@ -635,6 +640,20 @@ theorem concurrent_callers_own_outcome (X : Excs V) (c0 : Client V) (hok : c0.Ok
 /-- a fresh context satisfies the invariant; so does every context reached by creating futures -/
 theorem client_ok_init (name : String) (k : Nat) : ({ name := name, counter := k, futs := [] } : Client V).Ok := by
   intro e he; cases he
+
+private def exClient : Client Nat := { name := "cli", counter := 0, futs := [] }
+private def exReplies : List (Msg Nat) :=
+  [ { src := ⟨"srv", "o"⟩, dst := ⟨"cli", "$future_3"⟩, reqId := "c", body := .methodReply .value (some 30) },
+    { src := ⟨"srv", "o"⟩, dst := ⟨"cli", "$future_1"⟩, reqId := "a", body := .methodReply .exception (some 10) },
+    { src := ⟨"srv", "o"⟩, dst := ⟨"cli", "$future_2"⟩, reqId := "a", body := .errorReply "gone" } ]
+
+/-- the hypotheses of `concurrent_callers_own_outcome` are satisfiable (three callers, replies out of order, two of
+them even with the same request id), and the conclusion computes as expected -/
+example : (∀ m ∈ exReplies, m.dst ∈ (exClient.issue 3).2) ∧ (exReplies.map (fun m => m.dst)).Nodup ∧
+    (lookupFut "$future_1" ((exClient.issue 3).1.deliverAll exX exReplies).futs).map wait = some (.raised 10) ∧
+    (lookupFut "$future_2" ((exClient.issue 3).1.deliverAll exX exReplies).futs).map wait = some (.raised 500) ∧
+    (lookupFut "$future_3" ((exClient.issue 3).1.deliverAll exX exReplies).futs).map wait = some (.value 30) := by
+  decide
 
 example : (({ name := "cli", counter := 0, futs := [] } : Client Nat).issue 3).2
     = [⟨"cli", "$future_1"⟩, ⟨"cli", "$future_2"⟩, ⟨"cli", "$future_3"⟩] := by decide
